@@ -2,6 +2,7 @@ import N0Verif.Proofs.Esc
 import N0Verif.Proofs.EscRef
 import N0Verif.Proofs.Ini
 import N0Verif.Proofs.EscGenEq
+import N0Verif.Proofs.EscGenEq2
 /-!
 # C17 — delimited list / key=value text decodes to what was encoded
 
@@ -919,5 +920,28 @@ example : (Gen.EscPy.whileTrue (Gen.EscPy.round [] [';'] 0 '\\' true) 3 ⟨[['a'
 example : Gen.EscPy.splitWithEscape "a\\;b;c;d".toList [';'] 1 (some '\\') true 10 = .ok ["a;b".toList, "c;d".toList]
     ∧ Gen.EscPy.splitWithEscape ['a'] [] 0 (some '\\') true 3 = .error .ValueError
     ∧ Gen.EscPy.splitWithEscape "a\\;b".toList [';'] 0 none true 3 = .ok ["a\\".toList, ['b']] := by decide +kernel
+
+/-- **generated body of the escaping loop of `serialize_dict` = `Esc.escChar`**: one round of `for ch in in_buffer_str:`
+(regenerated from the source) appends the escape notation of a reserved character / the character itself, for every
+set of reserved characters, buffer and character. -/
+theorem C17_generated_escape_body_eq (s d eq dang buf : Str) (c : Char) :
+    Gen.EscPy.escBody s d eq dang buf c = buf ++ escChar dang c :=
+  EscGenEq2.escBody_eq s d eq dang buf c
+
+/-- **generated escaping loop = model**: the Lean text regenerated from the scalar branch of `serialize_dict` (after the
+capitalisation: `dangerous_characters = …`, the `for` over the characters with the f-string formats, `return`) equals
+`Esc.escapeValue (Esc.dangerous d eq) s`, for every text, delimiter and equal tag (no scope hypothesis: the region has no
+other parameter). -/
+theorem C17_generated_escape_eq (s d eq : Str) :
+    Gen.EscPy.escapeLoop s d eq = escapeValue (dangerous d eq) s :=
+  EscGenEq2.escapeLoop_eq s d eq
+
+-- non-vacuity: a reserved ASCII character (\x3b), a reserved character above U+00FF used as equal tag (\u20ac), one
+-- above U+FFFF used as delimiter (\U0001f600), an unreserved character kept
+example : Gen.EscPy.escapeLoop "a;b{".toList [';'] ['='] = "a\\x3bb\\x7b".toList := by decide +kernel
+example : Gen.EscPy.escapeLoop ['x', Char.ofNat 0x20ac, Char.ofNat 0x1f600, 'y'] [Char.ofNat 0x1f600] [Char.ofNat 0x20ac]
+    = "x\\u20ac\\U0001f600y".toList := by decide +kernel
+example : Gen.EscPy.escBody [] [] [] ['='] ['k'] '=' = "k\\x3d".toList
+    ∧ Gen.EscPy.escBody [] [] [] ['='] ['k'] 'v' = ['k', 'v'] := by decide +kernel
 
 end N0.C17
